@@ -44,17 +44,18 @@ Qed.
 Lemma step_R s f ag s' ag' : RI s -> step s f ag = (s', ag') -> RI s'.
 Proof.
   intros HR H. pose proof HR as [Ho Hr].
-  destruct f as [[cb|full cb| | |r|]| | |]; cbn [step do_op] in H.
+  destruct f as [[cb|full cb| | |r|]| | | |]; cbn [step do_op] in H.
   - rewrite Ho in H. destruct (s_max s <=? len (s_queue s)) eqn:E.
     + inversion H; subst. unfold RI. cbn. auto.
     + apply take_next_kf in H. eapply RI_frame; [exact H|]. unfold RI. cbn.
       rewrite len_app, Ho. cbn. split; [reflexivity|auto].
-  - destruct (s_discov s).
+  - destruct (s_discov s && negb (h_destroying s)).
     + apply take_next_kf in H. eapply RI_frame; [exact H|]. exact HR.
     + inversion H; subst. exact HR.
   - inversion H; subst. exact HR.
   - apply take_next_kf in H. eapply RI_frame; [exact H|]. exact HR.
-  - destruct (m_out s) as [|i rest] eqn:Eo.
+  - destruct (h_destroying s); [inversion H; subst; exact HR|].
+    destruct (m_out s) as [|i rest] eqn:Eo.
     + inversion H; subst. exact HR.
     + destruct (s_queue s) eqn:Eq.
       * (* no request queued: the OLA_FATAL branch, nothing changes *)
@@ -62,12 +63,16 @@ Proof.
         unfold RI. cbn. rewrite Eq. auto.
       * apply handle_R in H; [|cbn; rewrite Eq; discriminate].
         eapply RI_rpop; [|exact H]. exact HR.
-  - destruct (m_dout s) as [|x rest].
+  - destruct (h_destroying s); [inversion H; subst; exact HR|].
+    destruct (m_dout s) as [|x rest].
     + inversion H; subst. exact HR.
     + unfold disc_complete in H. inversion H; subst. exact HR.
   - apply take_next_kf in H. eapply RI_frame; [exact H|exact HR].
   - inversion H; subst. exact HR.
   - apply take_next_kf in H. eapply RI_frame; [exact H|]. exact HR.
+  - destruct (h_destroying s); [|inversion H; subst; exact HR].
+    unfold destroy_next in H. destruct (s_queue s) as [|[id cb] q] eqn:Eq; inversion H; subst; [exact HR|].
+    eapply RI_rpop; [exact HR|]. right. exists (id, cb). cbn. rewrite Eq. auto.
 Qed.
 
 Lemma RI_init max discov ms ds : RI (init max discov ms ds).
